@@ -30,10 +30,15 @@ func C12(r *Run) *core.Report {
 	c12W1(r, rep)
 	// W2
 	n := 0
-	names := append([]string{}, cachePublic...)
+	names, extra := cacheMethodList(r)
 	for _, name := range names {
 		a, b := methodPaths(r, 0, name), methodPaths(r, 1, name)
-		if undecidedPaths(r, rep, "C12.W0", a) || undecidedPaths(r, rep, "C12.W0", b) {
+		if extra[name] {
+			// API additions: compared where both twins' methods are modelled completely (W1 compares the method sets)
+			if !cleanPaths(a) || !cleanPaths(b) {
+				continue
+			}
+		} else if undecidedPaths(r, rep, "C12.W0", a) || undecidedPaths(r, rep, "C12.W0", b) {
 			continue
 		}
 		n++
